@@ -47,7 +47,7 @@ OBTAIN = ["new", "new_raw", "new_root", "stack", "copy", "static-type", "static-
 FREE_OPS = ["delkeep", "delrootkeep", "delrawkeep", "dealloc", "deallocraw"]
 STR_OPS = ["resize-more", "resize-less", "concat", "append", "assign-longer"]
 HISTS = ["direct", "direct", "assign-empty", "assign-full", "copy-empty", "copy-full", "clear-refill"]
-TUP_OPS = ["push", "pop", "pop_at", "push_at", "concat", "resize", "assign"]
+TUP_OPS = ["push", "pop", "pop_at", "push_at", "concat", "resize", "assign", "assign-filter", "assign-filter-none"]
 # the stack forms range() / slice() / zip() / enumerate() / filter() / map() themselves as the object under test
 VIEWS = ["view-range", "view-slice", "view-zip", "view-enum", "view-filter", "view-map"]
 OBTAIN = OBTAIN + VIEWS
@@ -653,10 +653,20 @@ def build_prog(case):
                 continue
             nt = True
             line = {"push": "push %1 %10", "pop": "pop %1", "pop_at": "pop_at %1 i:0", "push_at": "push_at %1 %10 i:0",
-                    "concat": "concat %1 %1", "resize": "resize %1 1", "assign": "assign %1 %1"}[op]
+                    "concat": "concat %1 %1", "resize": "resize %1 1", "assign": "assign %1 %1"}.get(op, "")
             if op in ("concat", "assign"):
                 P.add("stup %5 %10")
                 line = line.replace("%1 %1", "%1 %5")
+            if op.startswith("assign-filter"):
+                # a source that can only be iterated (no Len / Get): the other branch of Tuple's assign
+                P.add("new %6 heap t:Array t:Int i:1 i:2 i:3")
+                P.add("new %%7 heap t:Filter %%6 fn:%s" % ("all" if op == "assign-filter" else "none"))
+                P.add("assign %1 %7", expect_exc("ResourceError", "ValueError"))
+                P.add("del %7")
+                P.add("del %6")
+                P.add("repr %1", expect_ok(cur_repr[0]))
+                add_cont_check()
+                continue
             P.add(line, expect_exc("ResourceError", "ValueError"))
         P.add("repr %1", expect_ok(cur_repr[0]))
         add_cont_check()
